@@ -50,7 +50,7 @@ Definition attached (c : cstate) (h : string) : option string :=
 (* ---- the requests of one discharge flow, as decided by the third party's replies *)
 Inductive reply :=
 | RDischarge                        (* init answers with the discharge *)
-| RPoll (pollhost : string) (n : nat)        (* init answers with a poll URL on pollhost; n "not ready" answers, then the discharge *)
+| RPoll (pollhost : string) (n : nat) (next : reply) (* init answers with a poll URL on pollhost; n "not ready" answers there, then that URL answers with next *)
 | RRedirect (target : string) (next : reply) (* 30x to a URL on target, whose answer is next *)
 | RError.
 
@@ -59,7 +59,7 @@ Fixpoint flow_hosts (cur : string) (r : reply) : list string :=
   match r with
   | RDischarge => [cur]
   | RError => [cur]
-  | RPoll ph n => cur :: repeat ph (S n)
+  | RPoll ph n nx => cur :: repeat ph n ++ flow_hosts ph nx
   | RRedirect t nx => cur :: flow_hosts t nx
   end.
 
@@ -77,7 +77,7 @@ Definition fetch_requests (c : cstate) (tps : list tploc) : list (N * string * o
     (contacted c tps).
 
 Fixpoint reply_ok (r : reply) : bool :=
-  match r with RDischarge => true | RPoll _ _ => true | RRedirect _ n => reply_ok n | RError => false end.
+  match r with RDischarge => true | RPoll _ _ n => reply_ok n | RRedirect _ n => reply_ok n | RError => false end.
 
 (* number of discharges appended to the caller's tokens *)
 Definition fetched_count (c : cstate) (tps : list tploc) : nat :=
